@@ -1343,6 +1343,59 @@ func runC03(c *core.Ctx) core.Meta {
 		}
 	}
 
+	// ---------------- R03.15 sources are read before destinations are written ----------------
+	st15 := c.Rule("R03.15", "within one execution of a handler (one lane iteration for vector handlers) no source operand is read after a destination operand, EXEC, VCC or SCC was written: a destination may name the same register as a source, and the ISA reads all sources first", 300)
+	for _, a := range alus {
+		for _, fn := range c.SrcFuncs(a.pkg) {
+			if fn.Signature.Recv() == nil || !strings.HasPrefix(fn.Name(), "run") {
+				continue
+			}
+			var writes []*core.Node
+			g := core.BuildGraph(fn, 0, nil)
+			for _, n := range g.Nodes {
+				if name, cc := stateMethod(n.Instr); name == "WriteOperand" || name == "WriteOperandBytes" {
+					pv := prov.Of(cc.Args[0])
+					if strings.HasSuffix(pv, ".Dst") || strings.HasSuffix(pv, ".SDst") {
+						writes = append(writes, n)
+					}
+				}
+			}
+			if len(writes) == 0 {
+				continue
+			}
+			st15.Instances++
+			c.MarkAnalysed(fn)
+			var bad *core.Node
+			var badW *core.Node
+			for _, w := range writes {
+				wcc := core.CallOf(w.Instr)
+				after, _ := g.Reach(core.After(w, nil), core.WalkOpts{ForwardOnly: true})
+				for m := range after {
+					name, cc := stateMethod(m.Instr)
+					if name != "ReadOperand" && name != "ReadOperandBytes" {
+						continue
+					}
+					pv := prov.Of(cc.Args[0])
+					if !(strings.HasSuffix(pv, ".Src0") || strings.HasSuffix(pv, ".Src1") || strings.HasSuffix(pv, ".Src2")) {
+						continue
+					}
+					// reading another lane's copy in a later iteration is not reachable forward-only; a different lane argument
+					// in the same iteration (scalar destination at lane 0, vector source at lane i) cannot alias either
+					if len(cc.Args) > 1 && len(wcc.Args) > 1 && prov.Of(cc.Args[1]) != prov.Of(wcc.Args[1]) {
+						continue
+					}
+					bad, badW = m, w
+				}
+			}
+			st15.Ob(bad == nil)
+			if bad != nil {
+				c.ReportAt("R03.15", fn, bad.Instr.Pos(), "source-read-after-write", fmt.Sprintf("%s reads %s after it has written %s: when the instruction names the same register as source and destination the source value is already overwritten (the ISA reads all sources before writing)", core.FuncName(fn), short(prov.Of(core.CallOf(bad.Instr).Args[0])), short(prov.Of(core.CallOf(badW.Instr).Args[0]))))
+			} else {
+				st15.Sample("%s: all source reads precede the destination writes", core.FuncName(fn))
+			}
+		}
+	}
+
 	// ---------------- R03.2 shift-amount masking ----------------
 	st2 := c.Rule("R03.2", "in handlers of shift instructions (tied to their names through decode table -> dispatch switch -> callee) every data-dependent shift amount is confined to [0, W-1] (W from the instruction name) by a mask or modulus before it reaches the Go shift, because Go saturates where the ISA uses the low 4/5/6 bits", 15)
 	seenH := map[string]bool{}
